@@ -170,18 +170,24 @@ pub fn worker_main() {
         SITE.lock().unwrap().clear();
         PANIC_SITE.lock().unwrap().clear();
         SOFT.store(soft_limit(l.len() / 2), Ordering::Relaxed);
+        let t0 = std::time::Instant::now();
         let a = run_case(l);
+        let ms = t0.elapsed().as_millis();
         SOFT.store(usize::MAX, Ordering::Relaxed);
         let m = MAX_REQ.load(Ordering::Relaxed);
         let site = SITE.lock().unwrap().clone();
         let psite = PANIC_SITE.lock().unwrap().clone();
         let mut o = stdout.lock();
-        writeln!(o, "{}\t{}\t{}\t{}", a, m, site, psite).unwrap();
+        writeln!(o, "{}\t{}\t{}\t{}\t{}", a, m, site, psite, ms).unwrap();
         o.flush().unwrap();
     }
 }
 
+/// a case on a small input that takes longer than this is reported as work unrelated to input size
+pub const SLOW_MS: u128 = 2000;
+
 pub struct Outcome {
+    pub ms: u128,
     pub answer: String,
     pub max_req: usize,
     pub alloc_site: String,
@@ -252,6 +258,7 @@ impl Worker {
                     max_req: f.get(1).and_then(|x| x.parse().ok()).unwrap_or(0),
                     alloc_site: f.get(2).unwrap_or(&"").to_string(),
                     panic_site: f.get(3).unwrap_or(&"").to_string(),
+                    ms: f.get(4).and_then(|x| x.parse().ok()).unwrap_or(0),
                 }
             }
             Err(RecvTimeoutError::Timeout) => {
@@ -259,7 +266,7 @@ impl Worker {
                 let _ = self.child.wait();
                 let t = self.timeout;
                 *self = Worker::spawn(t);
-                Outcome { answer: "HANG".into(), max_req: 0, alloc_site: String::new(), panic_site: String::new() }
+                Outcome { ms: t.as_millis(), answer: "HANG".into(), max_req: 0, alloc_site: String::new(), panic_site: String::new() }
             }
             Err(RecvTimeoutError::Disconnected) => {
                 let _ = self.child.wait();
@@ -271,13 +278,14 @@ impl Worker {
                 let f: Vec<&str> = e.split(' ').collect();
                 if f.first() == Some(&"C08-ALLOC-REFUSED") {
                     Outcome {
+                        ms: 0,
                         answer: "ABORT".into(),
                         max_req: f.get(1).and_then(|x| x.parse().ok()).unwrap_or(0),
                         alloc_site: f.get(2).unwrap_or(&"?").to_string(),
                         panic_site: String::new(),
                     }
                 } else {
-                    Outcome { answer: "ABORT".into(), max_req: 0, alloc_site: slug(&e), panic_site: String::new() }
+                    Outcome { ms: 0, answer: "ABORT".into(), max_req: 0, alloc_site: slug(&e), panic_site: String::new() }
                 }
             }
         }
@@ -325,6 +333,10 @@ pub fn run_and_record(w: &mut Worker, sink: &mut vcommon::Sink, line: String, ta
     if o.answer != "ABORT" && o.max_req > soft_limit(input_len) {
         tags.push_str(&format!(" kf:alloc-{} alloc:2^{}", o.alloc_site, log2_bucket(o.max_req)));
         fails.push(format!("ALLOC single request of {} bytes for a {}-byte input, from {}", o.max_req, input_len, o.alloc_site));
+    }
+    if o.answer != "HANG" && o.ms > SLOW_MS && input_len < (1 << 20) {
+        tags.push_str(" kf:slow");
+        fails.push(format!("SLOW {} ms of CPU for a {}-byte input", o.ms / 1000 * 1000, input_len));
     }
     for f in fails {
         sink.oracle_failure(line.clone(), f, &tags);
